@@ -106,7 +106,7 @@ func (s sweepSpec) programs(shard, n int, visit func(stratum string, p Prog)) (t
 	}
 	// stratum U: entries of <= 2 tokens (pairs of <= 1) with an upper-case escape class, under all four flag settings
 	isUpper := func(e []string) bool {
-		return strings.Contains(strings.Join(e, ""), `\S`) || strings.Contains(strings.Join(e, ""), `\D`) || strings.Contains(strings.Join(e, ""), `\W`) || strings.Contains(strings.Join(e, ""), "[^a]")
+		return strings.Contains(strings.Join(e, ""), `\S`) || strings.Contains(strings.Join(e, ""), `\D`) || strings.Contains(strings.Join(e, ""), `\W`) || strings.Contains(strings.Join(e, ""), "[^a]") || strings.ContainsAny(strings.Join(e, ""), "\f\u00a0")
 	}
 	flagHdrs := []header{{}, {Flags: "i"}, {Flags: "s"}, {Flags: "is"}, {"i", "x", "y"}}
 	for _, e := range enumEntriesFlags(upperTokens, 2, s.Flags) {
